@@ -85,7 +85,8 @@ theorem spike_amps_eq (dT dC : Data) (f : Rat) (indsT indsC : List (List Nat)) (
   (C09.Lemmas.spikeAmpUnit_eq dT f i hi ha hs).1
 
 theorem template_cluster_amps_eq_mean (dT dC : Data) (f : Rat) (indsT indsC : List (List Nat))
-    (haT : dT.amplitudes.length = dT.spikes.length) (haC : dC.amplitudes.length = dC.spikes.length) :
+    (haT : dT.amplitudes.length = dT.spikes.length) (haC : dC.amplitudes.length = dC.spikes.length)
+    (_hsT : ∀ s ∈ dT.spikes, s < dT.wfsW.length) (_hsC : ∀ s ∈ dC.spikes, s < dC.wfsW.length) :
     (∀ t, t < dT.wfsW.length →
       (exportAmpFiles dT dC f indsT indsC).templatesAmps.getD t none =
         meanOver dT.spikes (exportAmpFiles dT dC f indsT indsC).spikesAmps t) ∧
